@@ -25,7 +25,8 @@
 (*                  terminal with the same table name)]                    *)
 (*     permok      every permuted point set handed to the tabulation was   *)
 (*                 the image of the rule under the slot's permutation      *)
-(*     w8          8 * quadrature weights;  c[side][dof] coefficient data  *)
+(*     w8          8 * quadrature weights;  c[side][dof] coefficient data; *)
+(*     x           the cell's vertex coordinates (= TableSpace!Verts)      *)
 (*     reqs        per (entity, permutation) request the tensor the        *)
 (*                 compiled kernel computed, entry r projected to          *)
 (*                 n0 = round(128 r), n1 = round((128 r - n0) / 4e-10)     *)
@@ -163,6 +164,7 @@ JudgeOne(rec) ==
   LET c == Norm(rec.desc)
       roles == rec.roles
       structOK == /\ DescOK(c)
+                  /\ rec.x = Verts(c.cell)
                   /\ Len(roles) >= 1 /\ Len(rec.mts) = Len(roles)
                   /\ Range(roles) = {role \in {"A", "B"} : HasRole(c, role)}
                   /\ \A k \in 1..Len(roles) : rec.mts[k].role = roles[k] /\ Len(rec.mts[k].shape) = 4
